@@ -65,7 +65,15 @@ fn escape_unicode_chars(s: &str) -> String {
                 6 => esc_c.replace("\\u{", "\\u00").replace('}', ""), // example: \u{de}
                 7 => esc_c.replace("\\u{", "\\u0").replace('}', ""),  // example: \u{980}
                 8 => esc_c.replace("\\u{", "\\u").replace('}', ""),   // example: \u{23f0}
-                _ => {panic!("unexpected value")}
+                _ => {
+                    // outside the BMP: JSON escapes take a UTF-16 surrogate pair
+                    let mut units = [0u16; 2];
+                    let mut esc = String::new();
+                    for unit in c.encode_utf16(&mut units).iter() {
+                        esc.push_str(&format!("\\u{:04x}", unit));
+                    }
+                    esc
+                }
             };
 
             result.push_str(&esc_c_new);
